@@ -32,7 +32,7 @@ import shrink
 import specclient
 from parts import unparse_tie as ut
 
-SPEC = dict(gen=['defs', 'rules', 'obfdata', 'unicodecat'], props=['CalmVerif.Props.C07'],
+SPEC = dict(gen=['defs', 'rules', 'obfdata', 'unicodecat', 'lexdata'], props=['CalmVerif.Props.C07', 'CalmVerif.Props.C07kw'],
             drivers=['drv_obf', 'drv_unparse', 'drv_spec'], audit='Audit/C07.lean')
 
 # ES5.1 §7.6.1 reserved words (non-strict code): keywords, future reserved words, null and boolean literals
